@@ -163,8 +163,6 @@ PARSED_RECORDS = ('LZIPHeader', 'LZIPTrailer', 'StreamHeader', 'BlockHeader', 'I
 # (ADT, field) -> reason: parsed but deliberately not verified
 GUARD_EXCEPTIONS = {
     ('StreamFooter', 'backward_size'): 'redundant description of the index size; the index itself is CRC-protected and parsed forward',
-    ('IndexRecord', 'unpadded_size'): 'redundant description of block sizes; block content is covered by the block check (only zero is rejected)',
-    ('IndexRecord', 'uncompressed_size'): 'redundant description of block sizes; block content is covered by the block check',
     ('BlockHeader', 'compressed_size'): 'optional redundant size; content covered by the block check',
     ('BlockHeader', 'uncompressed_size'): 'optional redundant size; content covered by the block check',
     ('Index', 'records'): 'container of IndexRecord (see its fields)',
@@ -236,6 +234,16 @@ def guard_compare(ctx):
                                 for pe in p['p']:
                                     if isinstance(pe, dict) and pe.get('n') == name and last_seg(pe.get('o')) == an:
                                         consumed = (f, bi)
+            if an == 'IndexRecord' and name in ('unpadded_size', 'uncompressed_size'):
+                # the index is the only thing that fixes the ORDER and NUMBER of bytes per block: it has to be compared
+                # with what the reader measured while decoding the blocks, i.e. in the reader, not inside the index parser
+                if compared and compared[0].self_adt and last_seg(compared[0].self_adt) == 'XZReader':
+                    ctx.ok(key, compared[0].loc(compared[1]), 'index record compared with the decoded block in %s' % compared[0].key)
+                else:
+                    ctx.violation(key, adt['span'], 'the index record field %s is parsed but never compared with the size of the block that '
+                                  'was actually decoded: two whole blocks of a multi-block file can be swapped (or a block replaced by another '
+                                  'valid block) and the file still decodes "successfully" to different data' % name)
+                continue
             if compared:
                 ctx.ok(key, compared[0].loc(compared[1]), 'compared in %s; the failing edge returns Err' % compared[0].key)
             elif (an, name) in GUARD_EXCEPTIONS:
@@ -950,3 +958,122 @@ def per_unit_reset(ctx):
                               'over from the first (valid multi-member input is rejected or corruption is masked)' % (name, how, g.name))
     if n == 0:
         ctx.anchor_missing('accumulated per-unit fields')
+
+
+# --------------------------------------------------------------------------- writer-side check discipline (C02)
+
+@rule('CHECKSUM-FEED-W', ['C02'], floor=2)
+def checksum_feed_w(ctx):
+    """Container writers feed the running check with exactly the bytes the current unit accepted: in
+    Write::write of XZWriter / LZIPWriter each hand-over `n = unit.write(&rest[..k])` is followed, in
+    the same loop iteration, by `update(&rest[..n])` on the same slice and the same count."""
+    from rules.io import is_trait_call, WRITE_TRAITS, value_closure, buf_alias_locals, slice_base
+    F = ctx.facts
+    n_inst = 0
+    for adt in ('XZWriter', 'LZIPWriter'):
+        fs = [f for f in methods_of(F, adt) if f.impl and last_seg(f.impl.get('trait')) == 'Write' and f.name == 'write']
+        if not fs:
+            ctx.anchor_missing('<%s as Write>::write' % adt)
+            continue
+        f = fs[0]
+        prov = Prov(f)
+        al = buf_alias_locals(f, prov, 2)
+        loops = f.loops()
+        for hb, ht, hc in f.calls():
+            if not is_trait_call(hc, WRITE_TRAITS, 'write') or ht['dest']['p']:
+                continue
+            data = prov.operand(ht['args'][1], 0, '%d:T' % hb)
+            base = slice_base(data)
+            if not ((base[0] == 'param' and base[1] == 2) or (base[0] == 'local' and base[1] in al)):
+                continue
+            n_inst += 1
+            key = '%s:accepted-bytes-are-checksummed' % adt
+            clo = value_closure(f, {ht['dest']['l']})
+            nl = {l for l in clo if f.local_ty(l) == 'usize'}
+            inner = [body for h, body in loops.items() if hb in body]
+            body = min(inner, key=len) if inner else None
+            good = None
+            for ub, ut, uc in f.calls():
+                if uc.name != 'update' or len(ut['args']) < 2:
+                    continue
+                if body is not None and ub not in body:
+                    continue
+                if not f.dominates(hb, ub):
+                    continue
+                d = prov.operand(ut['args'][1], 0, '%d:T' % ub)
+                for x in expr_walk(d):
+                    if x[0] == 'call' and x[1].endswith('Index::index') and len(x[2]) == 2:
+                        b2 = slice_base(x[2][0])
+                        rng = x[2][1]
+                        end = rng[2][-1] if rng[0] == 'agg' and rng[2] else None
+                        same_base = (b2 == base) or (b2[0] == 'local' and base[0] == 'local' and b2[1] == base[1])
+                        e = end
+                        while e is not None and e[0] == 'cast':
+                            e = e[2]
+                        core_e = e
+                        while core_e is not None and core_e[0] in ('field', 'downcast', 'trybranch', 'cast'):
+                            core_e = core_e[2] if core_e[0] == 'cast' else core_e[1]
+                        is_count = e is not None and ((e[0] == 'local' and e[1] in nl) or
+                                                      (core_e is not None and core_e[0] == 'call' and len(core_e) > 3 and core_e[3] is ht))
+                        if same_base and is_count and str(rng[1]).startswith('adt:RangeTo'):
+                            good = ub
+            if good is not None:
+                ctx.ok(key, f.loc(hb), 'update(&rest[..n]) with the count of this hand-over, inside the same loop iteration (bb%d)' % good)
+            else:
+                ctx.violation(key, f.loc(hb), 'the bytes the current block/member accepted are not fed to the running check as `&rest[..n]` '
+                              'in the same loop iteration: a write that crosses a unit boundary credits bytes to the wrong unit\'s check')
+    if n_inst == 0:
+        ctx.anchor_missing('unit hand-over in container writers')
+
+
+@rule('FINALIZE-RESET', ['C02', 'C04'], floor=4)
+def finalize_reset(ctx):
+    """A running check that is finalised for one unit starts afresh for the next: every `finalize`
+    in the container writers/readers is applied to a digest that was swapped out of its field
+    (mem::replace / mem::take / Option::take), or the field is reassigned on every path to the
+    function's return."""
+    F = ctx.facts
+    n = 0
+    for adt in ('XZWriter', 'LZIPWriter', 'XZReader', 'LZIPReader', 'ChecksumCalculator'):
+        for f in methods_of(F, adt):
+            prov = None
+            cnt = 0
+            for bi, t, c in f.calls():
+                if c.name not in ('finalize', 'finalize_reset', 'finalize_fixed') or not t['args']:
+                    continue
+                prov = prov or Prov(f)
+                recv = prov.operand(t['args'][0], 0, '%d:T' % bi)
+                cnt += 1
+                n += 1
+                key = '%s:finalize%s' % (f.key, '' if cnt == 1 else '#%d' % cnt)
+                swapped = any(x[0] == 'call' and x[1].endswith(('mem::replace', 'mem::take', 'Option::take')) for x in expr_walk(recv))
+                # receiver moved out of a by-value parameter / local (consumed): also fine
+                fld = None
+                for x in expr_walk(recv):
+                    if x[0] == 'field':
+                        sf = self_field_of(x)
+                        if sf:
+                            fld = sf[0]
+                by_ref_self = f.arg_count >= 1 and f.local_ty(1).startswith('&')
+                if swapped or fld is None or not by_ref_self:
+                    ctx.ok(key, f.loc(bi), 'the finalised digest was taken out of its field (or is owned): the field holds a fresh one')
+                    continue
+                # in place: the field must be reassigned on every path to return
+                stores = {b for b, si, name, rv in self_field_stores(f) if name == fld}
+                repl = set()
+                for b2, t2, c2 in f.calls():
+                    if c2.is_('mem::replace', 'mem::take') and t2['args']:
+                        a0 = prov.operand(t2['args'][0], 0, '%d:T' % b2)
+                        if any(x[0] == 'field' and self_field_of(x) and self_field_of(x)[0] == fld for x in expr_walk(a0)):
+                            repl.add(b2)
+                region = f.reach_from(f.succs(bi), stop=stores | repl)
+                # a replace that happened on this path before the finalize also counts (swap then finalize the old value)
+                before = {b for b in repl if bi in f.reach_from(f.succs(b)) and f.dominates(b, bi)}
+                leaks = [b for b in region if f.blocks[b]['term']['k'] == 'return']
+                if before or not leaks:
+                    ctx.ok(key, f.loc(bi), 'self.%s is re-initialised on every path after it was finalised' % fld)
+                else:
+                    ctx.violation(key, f.loc(bi), 'the running check in self.%s is finalised in place (e.g. on a clone) and keeps '
+                                  'accumulating: the next block/member carries a check over all previous units as well' % fld)
+    if n == 0:
+        ctx.anchor_missing('finalize calls in container code')
